@@ -286,6 +286,14 @@ func (p *Program) runJobsL(fns []*ssa.Function, lemmas []*Contract, cfg SolverCf
 	// minutes rather than in budget x number of broken obligations.
 	var bad int32
 	fullCfg := cfg
+	// obligations of open known findings end undischarged on the unchanged tree: they say nothing about whether this
+	// run is on a broken tree and must not switch the others to the reduced budget
+	listed := map[string]bool{}
+	for _, f := range allFindings {
+		if f.Status == "open" {
+			listed[f.Obligation] = true
+		}
+	}
 	for _, q := range pfs {
 		wg.Add(1)
 		go func(q pf) {
@@ -303,7 +311,7 @@ func (p *Program) runJobsL(fns []*ssa.Function, lemmas []*Contract, cfg SolverCf
 				reduced = true
 			}
 			defer func() {
-				if q.o.Status != "proved" && q.o.Kind != "pre-sat" {
+				if q.o.Status != "proved" && q.o.Kind != "pre-sat" && !listed[q.o.Name] {
 					atomic.AddInt32(&bad, 1)
 					if reduced && q.o.Status == "unknown" {
 						q.o.Status = "skipped"
@@ -429,7 +437,7 @@ func (p *Program) runJobsL(fns []*ssa.Function, lemmas []*Contract, cfg SolverCf
 	if os.Getenv("GOVC_NORETRY") == "" && atomic.LoadInt32(&bad) <= 2 {
 		retried := 0
 		for _, q := range pfs {
-			if q.o.Status != "unknown" || q.o.Kind == "pre-sat" || retried >= 4 {
+			if q.o.Status != "unknown" || q.o.Kind == "pre-sat" || retried >= 4 || listed[q.o.Name] {
 				continue
 			}
 			retried++
